@@ -16,7 +16,7 @@ from .functions import (FUNCTIONS, UnknownFunctionError,
     make_sig_printable, ExitKaSignal, FUNCTION_DOCUMENTATION,
     FunctionArgError, resolve_combinatoric)
 from .plot import Plot
-from .units import UNITS, PREFIXES, lookup_unit
+from .units import UNITS, PREFIXES, lookup_unit, InvalidPrefixError
 from .probability import InvalidParameterException
 from .config import ConfigProperties
 import ka.config
@@ -73,7 +73,11 @@ def get_units_string():
     return ", ".join(format_unit(unit) for unit in UNITS)
     
 def print_unit_info(name):
-    unit = lookup_unit(name)
+    try:
+        unit = lookup_unit(name)
+    except InvalidPrefixError:
+        print("Can't apply a prefix to a unit that has an offset.")
+        return
     if unit is None:
         print("Unknown unit.")
     else:
